@@ -140,7 +140,8 @@ JOPTS = "-Xss1g -XX:+UseParallelGC"
 
 
 def _tlc(module, cfg_path, metadir, out_path, workers, env=None, jopts="", timeout=3600, extra=None):
-    e = {"JAVA_TOOL_OPTIONS": (JOPTS + " " + jopts).strip(), "LOGICAL": os.path.join(SPEC, "empty.ndjson"), "KF": "none"}
+    e = {"JAVA_TOOL_OPTIONS": (JOPTS + " " + jopts).strip(), "LOGICAL": os.path.join(SPEC, "empty.ndjson"),
+         "WIRES": os.path.join(SPEC, "empty.ndjson"), "KF": "none"}
     if env:
         e.update(env)
     cmd = ["tlc", "-workers", str(workers), "-metadir", metadir, "-cleanup", "-noGenerateSpecTE",
